@@ -426,7 +426,10 @@ def _c10_oracle(tr, origin, meta):
 def run_c10(ctx):
     n = _tier(ctx, 24, 300)
     jobs, metas = _jobs_from(scen.single_writer, 'C10', ctx['seed'], n)
-    jobs = pc.corpus_jobs(['S1_*.scn', 'S2_*.scn']) + jobs
+    jj, mj = _jobs_from(scen.single_writer_join, 'C10j', ctx['seed'], max(10, n // 2))
+    metas.update(mj)
+    jobs = pc.corpus_jobs(['S1_*.scn', 'S2_*.scn', 'S21_*.scn']) + jobs + jj
+    metas['corpus_S21_join_during_inframe_write'] = dict(key=('1', 0), writer=0)
     metas['corpus_S1_second_update_skipped'] = dict(key=('1', 0), writer=0)
     metas['corpus_S2_fix_reinsert_stale'] = dict(key=('1', 2), writer=1)
     out = pc.run_scenarios('C10', ctx, jobs, [_with_meta(metas, _c10_oracle)], nontrivial=pc.received_kinds)
